@@ -10,7 +10,7 @@ from mc.proc_driver import replay as _replay
 META = {
     "kind": "graph",
     "engine": "E2 BFS to fixpoint over tick histories of the real ProcessManager.start() on a fake OS",
-    "rule": "for every (workers in 1..3, max_fails in {-1,0,1,2,3}) all tick histories over the alphabet {subset of workers dies} x {none, SIGHUP, SIGINT, SIGTERM, file change} x {subset of restarted workers crash at start} (+ bounded deviations) are explored breadth-first with de-duplication on the canonical state (per-slot process state, action queue, every local variable of the suspended start() frame and every plain attribute of the manager - so state a change adds there is never merged away -, monitor state) until no new state appears (fixpoint); in addition every history of 6 (quick) / 8 (thorough) ticks over the 5-letter alphabet {nothing, SIGHUP, file change, worker 0 dies, SIGINT} is run without state matching (guard against state the canonical form cannot see). Oracle C17: at every Process.start() no other live process has the same slot name and the previous occupant was joined; the number and names of slots never change; a worker that died in tick t (ground truth of the fake OS, whether or not the manager looked at it) is replaced by the end of tick t+1 unless the manager returned. distinct_nontrivial = distinct (configuration, exit, facts) outcomes.",
+    "rule": "for every (workers in 1..3, max_fails in {-1,0,1,2,3}) all tick histories over the alphabet {subset of workers dies} x {none, SIGHUP, SIGINT, SIGTERM, file change} x {subset of restarted workers crash at start} (+ bounded deviations) are explored breadth-first with de-duplication on the canonical state (per-slot process state, action queue, every local variable of the suspended start() frame and every plain attribute of the manager - so state a change adds there is never merged away -, monitor state) until no new state appears (fixpoint); in addition every history of 6 (quick) / 8 (thorough) ticks over the 5-letter alphabet {nothing, SIGHUP, file change, worker 0 dies, SIGINT} is run without state matching (guard against state the canonical form cannot see). Oracle C17: at every Process.start() no other live process has the same slot name and the previous occupant was joined; the number and names of slots never change; a worker that died in tick t (ground truth of the fake OS, whether or not the manager looked at it) is replaced by the end of tick t+1 unless the manager returned. distinct_nontrivial = distinct (configuration, exit, facts) outcomes. Further configurations with WorkerArgs options the manager reads (wait_tasks_timeout 0 / 2.0 with shutdown_timeout, max_tasks_per_child) and workers that exit on their own with status 0.",
     "assumptions": [
         "fake multiprocessing.Process/Queue/Event, os.kill, signal.signal, sleep stand for the OS (Linux semantics: kill on a reaped pid raises ProcessLookupError, on a zombie succeeds; is_alive()/join() reap)",
         "per tick: any subset of workers dies, at most one signal/file event, any subset of restarted workers crashes before its start-up wait; deviations (signal between drain and scan, Queue.empty() lag) bounded per history",
@@ -34,6 +34,12 @@ def shards(tier: str, seed: int) -> List[Any]:
             out.append({"workers": w, "max_fails": mf, "dev": d, "depth": depth})
     for w, mf in ((1, -1), (1, 3), (2, -1)):
         out.append({"workers": w, "max_fails": mf, "long": 6 if tier == "quick" else 8})
+    # further worker options the manager reads: a bounded task wait, a task quota per child; workers that exit
+    # on their own with status 0
+    for opts in ({"wait_tasks_timeout": 0.0, "shutdown_timeout": 0.0}, {"wait_tasks_timeout": 2.0}, {"max_tasks_per_child": 3, "exit0": True},
+                 {"max_tasks_per_child": 3}, {"exit0": True}):
+        for w, mf in (((1, 2), (2, -1), (2, 2)) if tier == "quick" else ((1, 2), (2, -1), (2, 1), (2, 2), (3, 3))):
+            out.append({"workers": w, "max_fails": mf, "dev": 0 if tier == "quick" else 1, "depth": depth, "opts": opts})
     return out
 
 
@@ -42,7 +48,7 @@ def run_shard(shard: Dict[str, Any]) -> Dict[str, Any]:
     if shard.get("long"):
         explore_long("C17", shard["workers"], shard["max_fails"], shard["long"], acc)
         return acc.as_dict()
-    explore_config("C17", shard["workers"], shard["max_fails"], shard["dev"], shard["depth"], acc)
+    explore_config("C17", shard["workers"], shard["max_fails"], shard["dev"], shard["depth"], acc, shard.get("opts"))
     return acc.as_dict()
 
 
